@@ -309,9 +309,16 @@ impl DeepClone for PdfStream {
             StreamInner::InFile { id, ref file_range } => cloner.stream_data(id, file_range.clone())?,
             StreamInner::Pending { ref data } => data.clone()
         };
-        Ok(PdfStream {
-            info: self.info.deep_clone(cloner)?, inner: StreamInner::Pending { data }
-        })
+        // the copy carries the bytes as read (decrypted): its /Length is their length, not the length the
+        // source declares (which counts the initialisation vector and the padding of an AES-encrypted source)
+        let mut info = Dictionary::new();
+        for (key, value) in self.info.iter() {
+            if key.as_str() != "Length" {
+                info.insert(key.clone(), value.deep_clone(cloner)?);
+            }
+        }
+        info.insert("Length", Primitive::Integer(data.len() as i32));
+        Ok(PdfStream { info, inner: StreamInner::Pending { data } })
     }
 }
 
